@@ -45,6 +45,12 @@ type c38Frame struct {
 	HS      *c38HS  `json:"hs,omitempty"`      // structured handshake response (first frame of hs cases)
 	Half    bool    `json:"half,omitempty"`    // after this frame the client shuts down its write side (frame promises more than it carries)
 	NoReply bool    `json:"noreply,omitempty"` // protocol says: no reply to this command when it is accepted
+	// multi-frame commands: Big filler bytes are appended to Payload in the first frame (not stored),
+	// Cont are the payloads of the continuation frames (sequence ids Seq+1, ...). Complete = every
+	// announced byte is sent and the last frame is shorter than 0xFFFFFF: the command is whole.
+	Big      int      `json:"big,omitempty"`
+	Cont     [][]byte `json:"cont,omitempty"`
+	Complete bool     `json:"complete,omitempty"`
 }
 
 // c38Case is one hostile client: a connection, an optional well-formed prelude, and frames.
@@ -454,6 +460,26 @@ func c38GenCommands(seed uint64) map[string][]c38Case {
 	pack("cmd/frame", "ns1_rw", "", 1, fr)
 	pack("cmd/frame-tx", "ns1_rw", "tx+prep", 1, fr)
 	pack("cmd/frame-ks-tx", "ns2_rw", "tx", 1, fr)
+
+	// ---- commands spanning several frames: a first frame of the maximal length 0xFFFFFF followed by
+	// a continuation (empty, short, 1 byte). Few of them: every one moves 16 MiB through a race build.
+	{
+		const maxFrame = 1<<24 - 1
+		big := func(class string, cmd []byte, noReply bool, cont ...[]byte) c38Frame {
+			return c38Frame{Class: class, Seq: 0, HdrLen: -1, Payload: cmd, Big: maxFrame - len(cmd), Cont: cont, Complete: true, NoReply: noReply}
+		}
+		fr = nil
+		fr = append(fr, big("cmd/multiframe/ping-short-cont", []byte{mycli.ComPing}, false, []byte("abcde")))
+		fr = append(fr, big("cmd/multiframe/unknown-empty-cont", []byte{0xF0}, false, []byte{}))
+		fr = append(fr, big("cmd/multiframe/initdb-1byte-cont", []byte{mycli.ComInitDB}, false, []byte("x")))
+		if kit.Tier() == "thorough" {
+			ld := append([]byte{mycli.ComStmtSendLongData}, append(c38U32(1), 0, 0)...)
+			fr = append(fr, big("cmd/multiframe/longdata-short-cont", ld, true, []byte("tail")))
+			fr = append(fr, c38Cmd("cmd/multiframe/exec-after-longdata", mycli.ComStmtExecute, c38ExecPayload(1, 0, 1, []byte{0x06}, 1, []byte{mycli.TVarString, 0, mycli.TNull, 0, mycli.TNull, 0}, nil)))
+			fr = append(fr, big("cmd/multiframe/fieldlist-short-cont", []byte{mycli.ComFieldList}, false, []byte("\x00w")))
+		}
+		pack("cmd/multiframe", "ns1_rw", "prep", 8, fr)
+	}
 
 	// ---- COM_QUIT variants
 	fr = nil
